@@ -119,7 +119,8 @@ def run(ctx: Ctx) -> Result:
                         F.add_alias(h[1], h[2]); ok = True
                     except ValueError:
                         ok = False
-                    want_ok = h[1].upper() not in spec_al and h[1].upper() not in snap['aliases']
+                    want_ok = (h[1].upper() not in spec_al and h[1].upper() not in snap['aliases'] and h[1].replace('_', '').isalnum()
+                               and h[2].upper().startswith('OP_') and h[2].upper()[3:] in G.names())       # a refused add leaves nothing behind (registry compared below)
                     if ok != want_ok: viol(hist, idx, f'add_alias accepted={want_ok}', f'accepted={ok}'); return False
                     if ok: spec_al[h[1].upper()] = h[2].upper()
                 elif op == 'run':
@@ -301,7 +302,7 @@ def run(ctx: Ctx) -> Result:
             'contracts': [('add_contract', 'cA'), ('add_contract', 'cB'), ('remove_contract', 'cA'), ('remove_contract', 'cB'), ('run',)],
             'interfaces': [('add_iface', 'iX'), ('add_iface', 'iY'), ('remove_iface', 'iX'), ('remove_iface', 'iY')],
             'iface_gate': [('add_iface', 'iX'), ('remove_iface', 'iX'), ('add_contract_x', 'k1'), ('add_contract_x', 'k2'), ('add_contract_x', 'none'), ('remove_contract_x',)],
-            'aliases': [('add_alias', 'zz1', 'OP_TRUE'), ('add_alias', 'zz2', 'op_false'), ('add_alias', 'ZZ1', 'OP_DUP'), ('add_alias', 'true', 'OP_TRUE'), ('add_alias', 'OP_XOR', 'OP_OR'), ('compile_alias',)],
+            'aliases': [('add_alias', 'zz1', 'OP_TRUE'), ('add_alias', 'zz2', 'op_false'), ('add_alias', 'ZZ1', 'OP_DUP'), ('add_alias', 'true', 'OP_TRUE'), ('add_alias', 'OP_XOR', 'OP_OR'), ('add_alias', 'keep-true', 'OP_TRUE'), ('add_alias', 'zz3', 'OP_NO_SUCH_OP'), ('compile_alias',)],
             'compile': [('compile', s) for s in compile_probes[:3]] + [('assemble', compile_probes[0]), ('assemble', compile_probes[1])],
             'compile_rt': [('add_contract', 'cA'), ('remove_contract', 'cA'), ('compile_rt',), ('compile', compile_probes[2])],
         }
